@@ -1,13 +1,158 @@
 package main
 
-// Environment stubs: thread group, ghost disk, ghost network, http. Filled in
-// incrementally; every stub hit is listed in the evidence.
+// Environment stubs: thread group, ghost disk, misc library contracts.
+// Every stub hit is listed in the evidence.
+
+import (
+	"fmt"
+	"go/types"
+	"strings"
+)
+
+// ---- ghost disk ----
+//
+// A file is st.ghost["file:<path>"] = StructV{exists Bool, len BV64, data Array(BV64->BV8)}.
+// Paths are concrete strings. Every mutating call is an event; when the ghost
+// "disk.crashAt" is set, only events with index < crashAt take effect (process
+// crash model: completed system calls persist, a single write is atomic).
+
+type fileState struct {
+	exists *Term
+	ln     *Term
+	data   *Term
+}
+
+func (e *Engine) getFile(st *State, path string) fileState {
+	if v, ok := st.ghost["file:"+path]; ok {
+		s := v.(*StructV)
+		return fileState{s.F[0].(*Term), s.F[1].(*Term), s.F[2].(*Term)}
+	}
+	return fileState{False(), BVu(0, 64), ConstArr(8, BVu(0, 8))}
+}
+
+func (e *Engine) putFile(st *State, path string, f fileState) {
+	st.ghost["file:"+path] = &StructV{F: []Value{f.exists, f.ln, f.data}}
+}
+
+// diskEvent returns the guard under which the next mutating event takes effect.
+func (e *Engine) diskEvent(st *State, what string) *Term {
+	cnt := e.ghostTerm(st, "disk.events", func() *Term { return BVu(0, 64) })
+	st.ghost["disk.events"] = Add(cnt, BVu(1, 64))
+	if c, ok := cnt.ConstInt(); ok {
+		e.diskLog = append(e.diskLog, fmt.Sprintf("%d:%s", c, what))
+	}
+	if ca, ok := st.ghost["disk.crashAt"]; ok {
+		return Ult(cnt, ca.(*Term))
+	}
+	return True()
+}
+
+func (e *Engine) notExistErr(st *State) *IfaceV {
+	if v, ok := st.ghost["sentinel:notexist"]; ok {
+		return v.(*IfaceV)
+	}
+	v := e.newError(st, "file does not exist").(*IfaceV)
+	st.ghost["sentinel:notexist"] = v
+	return v
+}
+
+func errIf(c *Term, err *IfaceV) *IfaceV {
+	return mergeV(c, err, nilIface()).(*IfaceV)
+}
+
+// fileSlice returns a fresh []byte holding the file content.
+func (e *Engine) fileSlice(st *State, f fileState) *SliceV {
+	b := &BigArrV{N: f.ln, Elem: types.Typ[types.Uint8], Leaves: []*Term{f.data}}
+	l := e.alloc(st, b)
+	return singleSlice(l, BVu(0, 64), f.ln, f.ln)
+}
+
+// appendBytes returns data with the slice's bytes written at offset at.
+func (e *Engine) writeBytesAt(st *State, data *Term, at *Term, s *SliceV, site string) (*Term, *Term) {
+	if len(s.A) != 1 {
+		panic(unsupported("file write of multi-alternative slice at " + site))
+	}
+	al := s.A[0]
+	if al.Base == nil {
+		return data, BVu(0, 64)
+	}
+	if b, ok := e.bigLeaves(st, al.Base); ok {
+		TF.fresh++
+		j := Var(fmt.Sprintf("j!%d", TF.fresh), 64)
+		rel := Sub(j, at)
+		return Lambda(j, Ite(And(Ule(at, j), Ult(rel, al.Len)), Select(b.Leaves[0], Add(al.Off, rel)), Select(data, j))), al.Len
+	}
+	n, ok := e.lenBound(st, al)
+	if !ok {
+		panic(unsupported("file write of unbounded length at " + site))
+	}
+	_, lenC := al.Len.ConstInt()
+	if n > 512 {
+		// long element-wise buffers: one lambda over a materialised source array
+		src := ConstArr(8, BVu(0, 8))
+		for k := 0; k < n; k++ {
+			src = Store(src, BVu(uint64(k), 64), e.sliceGet(st, al, BVu(uint64(k), 64)).(*Term))
+		}
+		TF.fresh++
+		j := Var(fmt.Sprintf("j!%d", TF.fresh), 64)
+		rel := Sub(j, at)
+		return Lambda(j, Ite(And(Ule(at, j), Ult(rel, al.Len)), Select(src, rel), Select(data, j))), al.Len
+	}
+	for k := 0; k < n; k++ {
+		K := BVu(uint64(k), 64)
+		b := e.sliceGet(st, al, K).(*Term)
+		if !lenC {
+			b = Ite(Ult(K, al.Len), b, Select(data, Add(at, K)))
+		}
+		data = Store(data, Add(at, K), b)
+	}
+	return data, al.Len
+}
+
+type fileHandle struct {
+	path   string
+	append bool
+}
+
+func (e *Engine) newHandle(st *State, path string, app bool) *PtrV {
+	l := e.alloc(st, &StructV{F: []Value{BVu(0, 64)}}) // field 0: position
+	e.handles[l.Obj] = &fileHandle{path: path, append: app}
+	return singlePtr(l)
+}
+
+func (e *Engine) handleOf(p Value, site string) (*fileHandle, *Loc) {
+	pv := p.(*PtrV)
+	if len(pv.A) != 1 || pv.A[0].L == nil {
+		// guarded nil + handle (error path merged): take the non-nil alternative
+		for _, a := range pv.A {
+			if a.L != nil {
+				if h, ok := e.handles[a.L.Obj]; ok {
+					return h, a.L
+				}
+			}
+		}
+		panic(unsupported("file operation on unknown handle at " + site))
+	}
+	h, ok := e.handles[pv.A[0].L.Obj]
+	if !ok {
+		panic(unsupported("file operation on unknown handle at " + site))
+	}
+	return h, pv.A[0].L
+}
+
+const (
+	oWRONLY = 0x1
+	oRDWR   = 0x2
+	oAPPEND = 0x400
+	oCREATE = 0x40
+	oTRUNC  = 0x200
+)
 
 func installEnvStubs(e *Engine) {
 	S := e.stubs
+	e.handles = map[int]*fileHandle{}
 	tg := "(*github.com/glowlabs-org/threadgroup.ThreadGroup)."
 	S[tg+"Launch"] = func(e *Engine, st *State, c *callInfo, a []Value) Value {
-		// the launched function is a separate root; record it
 		if fv, ok := a[1].(*FuncV); ok {
 			for _, al := range fv.A {
 				if al.Fn != nil {
@@ -30,6 +175,182 @@ func installEnvStubs(e *Engine) {
 	S[tg+"OnStop"] = func(e *Engine, st *State, c *callInfo, a []Value) Value { return nilIface() }
 	S[tg+"AfterStop"] = func(e *Engine, st *State, c *callInfo, a []Value) Value { return nilIface() }
 	S[tg+"Stop"] = func(e *Engine, st *State, c *callInfo, a []Value) Value { return nilIface() }
+
+	// ---- paths ----
+	S["path/filepath.Join"] = func(e *Engine, st *State, c *callInfo, a []Value) Value {
+		sl := a[0].(*SliceV)
+		n, _ := sl.A[0].Len.ConstInt()
+		var parts []string
+		for k := 0; k < n; k++ {
+			parts = append(parts, mustConcreteStr(e.sliceGet(st, sl.A[0], BVu(uint64(k), 64)), "filepath.Join element"))
+		}
+		return strConst(strings.Join(parts, "/"))
+	}
+	S["path.Join"] = S["path/filepath.Join"]
+	S["verif:verifTempDir"] = func(e *Engine, st *State, c *callInfo, a []Value) Value { return strConst("/ghost") }
+
+	// ---- files ----
+	readFile := func(e *Engine, st *State, c *callInfo, a []Value) Value {
+		path := mustConcreteStr(a[0], "ReadFile path")
+		f := e.getFile(st, path)
+		e.noteAssumption("ghost disk: files are (exists, length, bytes); reads of existing files succeed; I/O errors other than not-exist are outside the model")
+		data := mergeV(f.exists, e.fileSlice(st, f), zeroValue(types.NewSlice(types.Typ[types.Uint8])))
+		return &TupleV{E: []Value{data, errIf(Not(f.exists), e.notExistErr(st))}}
+	}
+	S["os.ReadFile"] = readFile
+	S["io/ioutil.ReadFile"] = readFile
+	writeFile := func(e *Engine, st *State, c *callInfo, a []Value) Value {
+		path := mustConcreteStr(a[0], "WriteFile path")
+		f := e.getFile(st, path)
+		// event 1: open(O_CREATE|O_TRUNC); event 2: write
+		g1 := e.diskEvent(st, "open-create-trunc "+path)
+		f = fileState{Or(f.exists, g1), Ite(g1, BVu(0, 64), f.ln), f.data}
+		g2 := e.diskEvent(st, "write "+path)
+		nd, n := e.writeBytesAt(st, f.data, BVu(0, 64), a[1].(*SliceV), c.site)
+		f = fileState{f.exists, Ite(g2, n, f.ln), Ite(g2, nd, f.data)}
+		e.putFile(st, path, f)
+		return nilIface()
+	}
+	S["os.WriteFile"] = writeFile
+	S["io/ioutil.WriteFile"] = writeFile
+	S["os.IsNotExist"] = func(e *Engine, st *State, c *callInfo, a []Value) Value {
+		return eqValue(a[0], e.notExistErr(st), types.Universe.Lookup("error").Type())
+	}
+	S["os.Stat"] = func(e *Engine, st *State, c *callInfo, a []Value) Value {
+		path := mustConcreteStr(a[0], "Stat path")
+		ex := e.getFile(st, path).exists
+		if _, ok := st.ghost["file:"+path]; !ok {
+			// directories and unmodelled paths: arbitrary existence
+			if v, ok2 := st.ghost["dir:"+path]; ok2 {
+				ex = v.(*Term)
+			} else {
+				ex = FreshBool("exists:" + path)
+				st.ghost["dir:"+path] = ex
+			}
+		}
+		return &TupleV{E: []Value{nilIface(), errIf(Not(ex), e.notExistErr(st))}}
+	}
+	S["os.MkdirAll"] = func(e *Engine, st *State, c *callInfo, a []Value) Value { return nilIface() }
+	S["os.OpenFile"] = func(e *Engine, st *State, c *callInfo, a []Value) Value {
+		path := mustConcreteStr(a[0], "OpenFile path")
+		flags, ok := argTerm(a[1]).ConstInt()
+		if !ok {
+			panic(unsupported("OpenFile with symbolic flags"))
+		}
+		f := e.getFile(st, path)
+		okc := f.exists
+		if flags&oCREATE != 0 {
+			g := e.diskEvent(st, "open-create "+path)
+			f = fileState{Or(f.exists, g), f.ln, f.data}
+			okc = True()
+		}
+		if flags&oTRUNC != 0 {
+			g := e.diskEvent(st, "truncate "+path)
+			f = fileState{f.exists, Ite(g, BVu(0, 64), f.ln), f.data}
+		}
+		e.putFile(st, path, f)
+		h := e.newHandle(st, path, flags&oAPPEND != 0)
+		hv := mergeV(okc, h, &PtrV{A: []PtrAlt{{G: True()}}})
+		return &TupleV{E: []Value{hv, errIf(Not(okc), e.notExistErr(st))}}
+	}
+	S["os.Create"] = func(e *Engine, st *State, c *callInfo, a []Value) Value {
+		path := mustConcreteStr(a[0], "Create path")
+		f := e.getFile(st, path)
+		g := e.diskEvent(st, "create-trunc "+path)
+		f = fileState{Or(f.exists, g), Ite(g, BVu(0, 64), f.ln), f.data}
+		e.putFile(st, path, f)
+		return &TupleV{E: []Value{e.newHandle(st, path, false), nilIface()}}
+	}
+	S["os.Open"] = func(e *Engine, st *State, c *callInfo, a []Value) Value {
+		path := mustConcreteStr(a[0], "Open path")
+		f := e.getFile(st, path)
+		h := e.newHandle(st, path, false)
+		e.readLog = append(e.readLog, path)
+		hv := mergeV(f.exists, h, &PtrV{A: []PtrAlt{{G: True()}}})
+		return &TupleV{E: []Value{hv, errIf(Not(f.exists), e.notExistErr(st))}}
+	}
+	S["(*os.File).Write"] = func(e *Engine, st *State, c *callInfo, a []Value) Value {
+		h, loc := e.handleOf(a[0], c.site)
+		f := e.getFile(st, h.path)
+		g := e.diskEvent(st, "write "+h.path)
+		pos := e.loadLoc(st, extendLoc(loc, Step{Field: 0})).(*Term)
+		at := pos
+		if h.append {
+			at = f.ln
+		}
+		nd, n := e.writeBytesAt(st, f.data, at, a[1].(*SliceV), c.site)
+		end := Add(at, n)
+		nl := Ite(Ult(f.ln, end), end, f.ln)
+		e.putFile(st, h.path, fileState{f.exists, Ite(g, nl, f.ln), Ite(g, nd, f.data)})
+		e.storeLoc(st, extendLoc(loc, Step{Field: 0}), end, True())
+		return &TupleV{E: []Value{n, nilIface()}}
+	}
+	S["(*os.File).WriteAt"] = func(e *Engine, st *State, c *callInfo, a []Value) Value {
+		h, _ := e.handleOf(a[0], c.site)
+		f := e.getFile(st, h.path)
+		g := e.diskEvent(st, "pwrite "+h.path)
+		at := argTerm(a[2])
+		nd, n := e.writeBytesAt(st, f.data, at, a[1].(*SliceV), c.site)
+		// bytes between the old end and the write offset read as zero
+		TF.fresh++
+		j := Var(fmt.Sprintf("j!%d", TF.fresh), 64)
+		zf := Lambda(j, Ite(And(Ule(f.ln, j), Ult(j, at)), BVu(0, 8), Select(nd, j)))
+		end := Add(at, n)
+		nl := Ite(Ult(f.ln, end), end, f.ln)
+		e.putFile(st, h.path, fileState{f.exists, Ite(g, nl, f.ln), Ite(g, zf, f.data)})
+		return &TupleV{E: []Value{n, nilIface()}}
+	}
+	S["(*os.File).ReadAt"] = func(e *Engine, st *State, c *callInfo, a []Value) Value {
+		h, _ := e.handleOf(a[0], c.site)
+		f := e.getFile(st, h.path)
+		dst := a[1].(*SliceV)
+		at := argTerm(a[2])
+		if len(dst.A) != 1 {
+			panic(unsupported("ReadAt into multi-alternative slice"))
+		}
+		d := dst.A[0]
+		n, ok := e.lenBound(st, d)
+		if !ok {
+			panic(unsupported("ReadAt into unbounded buffer"))
+		}
+		// available = max(0, len - at) (at is a non-negative int64 in the callers)
+		avail := Ite(Ult(at, f.ln), Sub(f.ln, at), BVu(0, 64))
+		got := Ite(Ult(avail, d.Len), avail, d.Len)
+		for k := 0; k < n; k++ {
+			K := BVu(uint64(k), 64)
+			e.sliceSet(st, d, K, Select(f.data, Add(at, K)), Ult(K, got))
+		}
+		eof := e.eofErr(st)
+		return &TupleV{E: []Value{got, errIf(Ult(got, d.Len), eof)}}
+	}
+	S["(*os.File).Read"] = func(e *Engine, st *State, c *callInfo, a []Value) Value {
+		h, loc := e.handleOf(a[0], c.site)
+		f := e.getFile(st, h.path)
+		d := a[1].(*SliceV).A[0]
+		pos := e.loadLoc(st, extendLoc(loc, Step{Field: 0})).(*Term)
+		n, ok := e.lenBound(st, d)
+		if !ok {
+			panic(unsupported("Read into unbounded buffer"))
+		}
+		avail := Ite(Ult(pos, f.ln), Sub(f.ln, pos), BVu(0, 64))
+		got := Ite(Ult(avail, d.Len), avail, d.Len)
+		for k := 0; k < n; k++ {
+			K := BVu(uint64(k), 64)
+			e.sliceSet(st, d, K, Select(f.data, Add(pos, K)), Ult(K, got))
+		}
+		e.storeLoc(st, extendLoc(loc, Step{Field: 0}), Add(pos, got), True())
+		return &TupleV{E: []Value{got, errIf(And(Eq(got, BVu(0, 64)), Not(Eq(d.Len, BVu(0, 64)))), e.eofErr(st))}}
+	}
+	S["(*os.File).Close"] = func(e *Engine, st *State, c *callInfo, a []Value) Value { return nilIface() }
+	S["(*os.File).Stat"] = func(e *Engine, st *State, c *callInfo, a []Value) Value {
+		return &TupleV{E: []Value{nilIface(), nilIface()}}
+	}
+}
+
+func (e *Engine) eofErr(st *State) *IfaceV {
+	g := e.prog.ImportedPackage("io").Var("EOF")
+	id := e.globalObj(st, g)
+	return st.heap[id].(*IfaceV)
 }
 
 func (e *Engine) checkGuarded(st *State, l *Loc, site string) {}
